@@ -80,7 +80,8 @@ def generate(rng, tier: str, index: int) -> dict:
     version = rng.choice([4, 4, 6])
     return {'micro_seed': rng.randint(1, 1 << 48), 'knobs': knobs(rng, env={'api.version': version}), 'version': version, 'kinds': kinds, 'scripts': scripts, 'gap': rng.choice([0.02, 0.1]), 'split_p': rng.choice([0.0, 0.3]),
             'consolidate': rng.chance(0.2), 'packets': rng.chance(0.3),
-            'pipe': rng.choice([None, None, {'capacity': rng.choice([100, 1000, 4096, 8192]), 'refill_every': rng.choice([0.01, 0.05, 0.3]), 'helper': rng.choice(['hj', 'ht', 'both'])}])}  # fmt: skip
+            'pipe': rng.choice([None, None, {'capacity': rng.choice([100, 1000, 4096, 8192]), 'refill_every': rng.choice([0.01, 0.05, 0.3]), 'helper': rng.choice(['hj', 'ht', 'both']),
+                                             'crash_at': rng.choice([None, None, 0.3, 0.6, 1.2])}])}  # fmt: skip
 
 
 def hostile(item: dict, limit: int = 250) -> bytes:
@@ -255,6 +256,24 @@ def execute(plan: dict) -> dict:
             w.after(plan['pipe']['refill_every'], refill)
 
         w.after(plan['pipe']['refill_every'], refill)
+        if plan['pipe'].get('crash_at') is not None and pressured:
+            # the slow helper dies while exabgp holds the unwritten tail of an event for it, and is respawned under the same
+            # name: what the new instance reads must start with a whole record
+            victim = pressured[0]
+            crash = {'done': False}
+
+            def maybe_crash() -> None:
+                if crash['done'] or w.loop.mono > 30.0:
+                    return
+                q = w.reactor.processes._write_queue.get(victim.name)
+                if q and victim.partial_writes > 0 and victim.inbuf:
+                    crash['done'] = True
+                    probes['helper_crashed_mid_record'] = 1
+                    victim.exit(1)
+                    return
+                w.after(0.01, maybe_crash)
+
+            w.at(plan['pipe']['crash_at'], maybe_crash)
     violations: list[dict] = []
     render_log: list = []
 
